@@ -85,6 +85,10 @@ class ConnectionState:
         return self._selected
 
     @property
+    def authenticated(self) -> bool:
+        return self._session is not None
+
+    @property
     def capability(self) -> Capability:
         if self._session:
             return Capability(self._capability)
